@@ -529,6 +529,13 @@ def inline_new_helpers(prog, max_rounds=3):
         for f in prog.funcs.values():
             if (rel(f.unit), f.name) in known or not _helper_ok(f):
                 continue
+            # a byte-wise comparison helper is a primitive the verdict rules recognise by its shape: keep it a function
+            try:
+                from .rules.dlrules import orfold_compare
+                if orfold_compare(prog, f):
+                    continue
+            except Exception:
+                pass
             cands_by_unit.setdefault(f.unit, {})[f.name] = f
         if not cands_by_unit:
             break
